@@ -17,7 +17,13 @@ Independent oracle (knows nothing of the model), per request:
   P4 get_description() of every ChangeContents, applied as a unified diff to the file as it was, gives the
      bytes that were written; the composite description is the documented concatenation;
   P5 an exception out of Project.do is a RopeError subclass and leaves the bytes of the tree as they were;
-(Observation only, not a check: whether a resources=R restriction was overridden -- rope does so for local names.)
+  P6 with resources=R every edited file is in R or is the file holding the selected name (rope edits that file
+     for local names whatever R says; counted as an observation).
+Besides the one-request-per-fresh-project stream there are multi-step SESSIONS on one live project (nothing is
+reopened between steps): project-wide renames, random requests of every kind (performed, some undone), modules
+retired THROUGH ROPE into the ignored folder, modules replaced OUTSIDE rope by a symbolic link to an out-of-project
+copy followed by project.validate(); and performs under a TaskHandle stopped at notification 0, 1, 2, ... (every
+refused attempt must leave the disk untouched).  P1-P6 are applied after every step.
 Correspondence (inside Coq, coq/C09/Runner.v): the change tree rope returned is run by the model (C10's
 history_do / history_undo on the real paths, C09's traced run) on the abstracted disk tree; compared: raised
 flag and exception class, tree after do, trace of mutating primitives (audited vs model), announced set vs
@@ -91,7 +97,21 @@ def gen_requests(rng, world, density):
                     req["dest"] = rng.choice([q for q in pf if q != p] + folders + [""])
                 if kind == "introduce_factory":
                     req["global_"] = rng.random() < 0.4
+                if rng.random() < 0.08:
+                    req["stop"] = rng.randrange(0, 6)      # perform under a TaskHandle stopped at that notification
+                    req["no_undo"] = True
                 reqs.append(restrict(req))
+        if "def mm(" in text:
+            # MoveMethod: destination attribute whose class lives in another project module (hh), in the
+            # out-of-project module (ext), or does not exist; with and without resources= excluding the destination
+            for dest in ("hh", "ext", "nope"):
+                for restr in (None, [q for q in pf if q != "h.py"], [p]):
+                    if rng.random() < max(density, 0.6):
+                        req = {"kind": "move", "resource": p, "offset": text.index("def mm(") + 4, "dest": dest,
+                               "new_name": rng.choice([None, "moved"])}
+                        if restr is not None:
+                            req["resources"] = sorted(restr)
+                        reqs.append(req)
         for act in L.IMPORT_ACTIONS:
             if rng.random() < max(density, 0.5):
                 reqs.append({"kind": "organize_imports", "resource": p, "offset": None, "action": act})
@@ -117,8 +137,9 @@ def gen_requests(rng, world, density):
         reqs.append({"kind": "move_module", "resource": f, "offset": None, "dest": rng.choice(["", f])})
     for pat, goal in L.RESTRUCTURES:
         reqs.append(restrict({"kind": "restructure", "pattern": pat, "goal": goal}))
-    reqs.extend(synthetic_requests(rng, world, pf, folders))
-    if "proj2/u.py" in world["files"]:
+    if pf:
+        reqs.extend(synthetic_requests(rng, world, pf, folders))
+    if "proj2/u.py" in world["files"] and "proj/a.py" in world["files"]:
         text = world["files"]["proj/a.py"]
         for off in L.interesting_offsets(text):
             cat = L.offset_category(text, off)
@@ -187,11 +208,39 @@ def announced_real_paths(r):
     return out
 
 
+def ignored_paths(r):
+    """predicate on base-relative paths: ignored by construction (name patterns of the generator), or a symbolic
+    link present before the step / anything below one (rope: links are ignored resources); the destination a step
+    explicitly asks for (`requested`, e.g. retiring a module into the ignored folder) is exempt for that step"""
+    links = [p for p, v in r.s1.items() if v[0] == "l"]
+    requested = set(r.req.get("requested", []))
+
+    moved_folders = []
+    if r.req.get("kind") in ("rename", "rename_module", "move", "move_module", "module_to_package"):
+        # the request names the destination of the module it moves (new name / destination folder)
+        root0 = getattr(r, "root", "proj")
+        for l in L.leaves(getattr(r, "spec", None) or ["CS", "", []]):
+            if l[0] == "MV":
+                requested.add(os.path.normpath(os.path.join(root0, *l[2].split("/"))).replace(os.sep, "/"))
+    for l in L.leaves(getattr(r, "spec", None) or ["CS", "", []]):
+        if l[0] == "MV" and l[3]:          # a folder is moved on request: what it contains moves with it
+            root = getattr(r, "root", "proj")
+            moved_folders += [os.path.normpath(os.path.join(root, *q.split("/"))).replace(os.sep, "/") for q in (l[1], l[2])]
+
+    def is_ignored(p):
+        if p in requested or any(p.startswith(k + "/") for k in moved_folders):
+            return False
+        return L.is_ignored_by_construction(p) or any(p == k or p.startswith(k + "/") for k in links)
+    is_ignored.requested = requested
+    return is_ignored
+
+
 def judge(world, r):
     """-> list of (check id, text).  Independent of the model."""
     bad = []
     req = r.req
     root = getattr(r, "root", "proj")
+    is_ignored = ignored_paths(r)
     # P1
     if r.compute_raw:
         bad.append(("P1-write-audited", "writing events while computing: %r" % (r.compute_raw[:4],)))
@@ -218,15 +267,22 @@ def judge(world, r):
     outside = [a for a in real if not (a == root or a.startswith(root + "/"))]
     if outside and not r.announced_foreign:
         bad.append(("P3-outside-announced", "announced resources outside the project root: %s" % ", ".join(outside)))
-    ign = [a for a in real if L.is_ignored_by_construction(a)]
-    if ign or r.announced_ignored_by_rope:
-        bad.append(("P3-ignored-announced", "ignored resources announced: %s" % ", ".join(ign or r.announced_ignored_by_rope)))
+    ign = [a for a in real if is_ignored(a)]
+    by_rope = [a for a in r.announced_ignored_by_rope
+               if os.path.normpath(os.path.join(root, *a.split("/"))).replace(os.sep, "/") not in is_ignored.requested]
+    if ign or by_rope:
+        bad.append(("P3-ignored-announced", "ignored resources announced: %s" % ", ".join(ign or by_rope)))
     if not r.composite_ok:
         bad.append(("P4-composite", "ChangeSet.get_description() is not the concatenation of its children's"))
     # P6
     if req.get("resources") is not None:
         extra = [l[1] for l in L.leaves(r.spec) if l[0] == "CC" and l[1] not in req["resources"]]
-        r.restriction_overridden = bool(extra)     # observation only: not part of the property's text
+        r.restriction_overridden = bool(extra)     # rope edits the file holding the selected name for local names
+        extra = [x for x in extra if x != req.get("resource")]
+        if req.get("only_current"):
+            extra = []      # Inline(only_current=True) names its own working set: this occurrence + the definition
+        if extra:
+            bad.append(("P6-resources", "files excluded by resources= edited: %s" % ", ".join(extra)))
     if not r.performed:
         return bad
     # P3 after do / undo
@@ -238,7 +294,7 @@ def judge(world, r):
         out = [p for p in ch if not (p == root or p.startswith(root + "/"))]
         if out:
             bad.append(("P3-outside-root", "%s changed paths outside the project root: %s" % (what, ", ".join(out[:5]))))
-        ig = [p for p in ch if L.is_ignored_by_construction(p)]
+        ig = [p for p in ch if is_ignored(p)]
         if ig:
             bad.append(("P3-ignored-touched", "%s changed ignored resources: %s" % (what, ", ".join(ig[:5]))))
     # P5
@@ -259,6 +315,8 @@ def judge(world, r):
             rel = os.path.normpath(os.path.join(root, *path.split("/"))).replace(os.sep, "/")
             pre = r.s1.get(rel)
             if pre is not None and pre[0] == "l":         # a symbolic link: the file it points to
+                if os.path.isabs(pre[1].decode()):
+                    continue
                 pre = r.s1.get(os.path.normpath(os.path.join(os.path.dirname(rel), pre[1].decode())).replace(os.sep, "/"))
                 rel = None
             old = pre[1].decode("utf-8") if pre is not None and pre[0] == "f" else ""
@@ -341,12 +399,12 @@ def structural_class(world, r, check):
             return ("out-of-project-resource-changed: %s computes a change of the out-of-project module that "
                     "defines the selected name" % label)
         if getattr(r, "announced_ignored_by_rope", None) or any(
-                L.is_ignored_by_construction(a) for a in announced_real_paths(r)):
+                ignored_paths(r)(a) for a in announced_real_paths(r)):
             return ("ignored-resource-changed: %s computes a change of an ignored resource (the module that defines "
                     "or is the selected name)" % kind)
         for l in mvs:
             if norm(l[2]) == norm(l[1]) or norm(l[2]).startswith(norm(l[1]) + "/"):
-                return "resource-moved-into-itself: %s announces a move of a folder below itself" % kind
+                return "resource-moved-into-itself: MoveModule announces a move of a folder below itself"
     return "unexplained: %s in %s" % (check, kind)
 
 
@@ -444,10 +502,12 @@ def representable(r):
 
 
 def g_case(I, base, r):
-    return ("{| c_root := %s; c_tree := %s; c_change := %s; o_announced := %s; o_compute_writes := %s; "
+    stp = getattr(r, "stop", None)
+    return ("{| c_root := %s; c_tree := %s; c_change := %s; c_stp := %s; o_announced := %s; o_compute_writes := %s; "
             "o_raised := %s; o_cls := %s; o_trace := %s; o_tree := %s; o_undone := %s; o_uraised := %s; "
             "o_ucls := %s; o_utrace := %s; o_utree := %s |}" % (
                 g_path(I, getattr(r, "root", "proj")), g_tree(I, r.s1), g_change(I, r.spec),
+                "None" if stp is None else "(Some %s)" % g_nat(stp),
                 g_list([g_path(I, a) for a in r.announced]), g_nat(min(len(r.compute_raw), 4000)),
                 g_bool(r.do_exc is not None), g_N(getattr(r, "do_code", 0) if r.do_exc is not None else 0),
                 g_events(I, base, r.do_raw), g_tree(I, r.s2), g_bool(r.undone), g_bool(r.undo_exc is not None),
@@ -571,6 +631,143 @@ def serve_one(world, req, root=None):
         raise
 
 
+# --------------------------------------------------------------------------------------------- sessions
+def current_world(world, snap):
+    """the world as it is on disk now (text files only): requests of a session are generated against it"""
+    files = {}
+    for p, v in snap.items():
+        if v[0] == "f":
+            try:
+                files[p] = v[1].decode("utf-8")
+            except UnicodeDecodeError:
+                pass
+    return dict(world, files=files)
+
+
+class LiveSession:
+    """one world, ONE live project for the whole sequence of steps (nothing is reopened or rebuilt between steps):
+        {"op": "request", "req": {...}, "undo": bool, "stops": bool}
+              compute + perform (+ History.undo()); with "stops": the perform is attempted under a TaskHandle
+              stopped at notification 0, 1, 2, ... until one attempt goes through (each refused attempt must leave
+              the disk untouched)
+        {"op": "retire", "path": p}     the module is moved THROUGH ROPE into the ignored folder skip/
+        {"op": "swap", "path": p}       OUTSIDE rope the module is replaced by a symbolic link to an out-of-project
+                                        copy, then project.validate()"""
+
+    def __init__(self, world):
+        self.world = world
+        self.base = L.materialize(world)
+        self.project = L.open_project(self.base, world)
+
+    def close(self):
+        try:
+            self.project.close()
+        except Exception:
+            pass
+        shutil.rmtree(self.base, ignore_errors=True)
+
+    def cur(self):
+        return current_world(self.world, L.snapshot(self.base))
+
+    def step(self, step):
+        op = step["op"]
+        if op == "swap":
+            L.external_symlink_swap(self.base, self.project, step["path"])
+            return []
+        if op == "retire":
+            name = step["path"].split("/")[-1]
+            req = {"kind": "synthetic", "spec": ["CS", "retire", [["MV", step["path"], "skip/" + name, False]]],
+                   "requested": ["proj/skip/" + name], "no_undo": True}
+            return [self._serve(req)]
+        req = dict(step["req"])
+        if not step.get("undo"):
+            req["no_undo"] = True
+        if not step.get("stops"):
+            return [self._serve(req)]
+        out = []
+        for j in range(0, 14):
+            r = self._serve(dict(req, stop=j, no_undo=True))
+            out.append(r)
+            if r.outcome != "changes" or not r.performed or r.do_exc is None:
+                break
+        return out
+
+    def _serve(self, req):
+        r = L.serve(self.base, self.world, self.project, req)
+        r.base = self.base
+        return r
+
+
+def global_rename_request(rng, cur, turn=0):
+    """rename of a module-level function / class / variable of a.py with default resources (project-wide)"""
+    import re
+    text = cur["files"].get("proj/a.py", "")
+    spots = [m.start(2) for m in re.finditer(r"^(def |class )(\w+)", text, re.M)]
+    spots += [m.start(1) for m in re.finditer(r"^(\w+) = ", text, re.M)]
+    if not spots:
+        return None
+    spots.sort()
+    return {"kind": "rename", "resource": "a.py", "offset": spots[turn % len(spots)], "new_name": "zz%d" % rng.randrange(100)}
+
+
+def gen_session(rng, world, n_steps):
+    """generates AND executes: yields (steps so far, world as on disk before the step, records of the step)"""
+    live = LiveSession(world)
+    steps = []
+    force_global = 2                       # every session starts with project-wide renames (they warm rope's caches)
+    turn = rng.randrange(8)
+    retire_at = rng.randrange(2, max(3, n_steps // 2))
+    swap_at = rng.randrange(2, max(3, n_steps // 2))
+    try:
+        for i in range(n_steps):
+            cur = live.cur()
+            pf = L.python_files(cur)
+            movable = [q for q in pf if q not in ("a.py", "bad.py", "h.py") and not q.endswith("__init__.py")]
+            u = rng.random()
+            step = None
+            if (i == retire_at or u < 0.03) and movable:
+                step = {"op": "retire", "path": rng.choice(movable)}
+                force_global = 4
+            elif (i == swap_at or u < 0.06) and movable:
+                step = {"op": "swap", "path": rng.choice(movable)}
+                force_global = 4
+            elif force_global > 0:
+                force_global -= 1
+                turn += 1
+                req = global_rename_request(rng, cur, turn)
+                if req is not None:
+                    step = {"op": "request", "req": req, "undo": False, "stops": rng.random() < 0.7}
+            if step is None:
+                cands = [q for q in gen_requests(rng, cur, 0.3) if q["kind"] != "multi"
+                         and not (q["kind"] == "synthetic" and q.get("no_undo"))]
+                if not cands:
+                    break
+                step = {"op": "request", "req": rng.choice(cands), "undo": rng.random() < 0.3,
+                        "stops": rng.random() < 0.6}
+            records = live.step(step)
+            steps.append(step)
+            yield list(steps), cur, records
+            if any(r.outcome == "hang" for r in records):
+                break
+    finally:
+        live.close()
+
+
+def replay_session(world, steps):
+    """-> [(world before the step, record)] of the LAST step, after re-executing all steps on one live project"""
+    live = LiveSession(world)
+    try:
+        out = []
+        for i, step in enumerate(steps):
+            cur = live.cur()
+            records = live.step(step)
+            if i == len(steps) - 1:
+                out = [(cur, r) for r in records]
+        return out
+    finally:
+        live.close()
+
+
 # ------------------------------------------------------------------------------------- replay / signature
 def replay_obj(world, r, check, text, cls):
     return {"kind": "request", "world": world, "req": r.req, "root": getattr(r, "root", "proj"), "check": check,
@@ -582,6 +779,12 @@ def signature(obj):
         return "regression of repo commit %s" % obj["fixed_by"]      # corpus inputs never match a known finding
     if obj.get("class"):
         return obj["class"]
+    if obj.get("kind") == "session":
+        for cur, r in replay_session(obj["world"], obj["steps"]):
+            bad = judge(cur, r)
+            if bad:
+                return structural_class(cur, r, bad[0][0])
+        return "other:passes"
     if obj.get("kind") == "request":
         r, s = serve_one(obj["world"], obj["req"], obj.get("root"))
         try:
@@ -595,6 +798,13 @@ def signature(obj):
 
 
 def replay(ctx, obj):
+    if obj.get("kind") == "session":
+        want = obj.get("check")
+        for cur, r in replay_session(obj["world"], obj["steps"]):
+            bad = judge(cur, r)
+            if (any(c == want for c, _ in bad) if want else bool(bad)):
+                return True
+        return False
     if obj.get("kind") == "request":
         r, s = serve_one(obj["world"], obj["req"], obj.get("root"))
         try:
@@ -625,7 +835,9 @@ def run(ctx):
                 "out-of-project folder; request = one of 17 refactoring kinds x resource x offset of every category "
                 "(all identifier offsets, a share of the others incl. end of file and past the end) x valid / malformed "
                 "names x optional resources= restriction. Every request is computed under the audit hook; every returned "
-                "change is performed and undone. A case is non-trivial when a change with at least one leaf came back and "
+                "change is performed and undone (some under a TaskHandle stopped at a job boundary). Plus multi-step sessions on one live "
+                "project: project-wide renames, mixed requests, modules retired through rope into the ignored folder, external "
+                "symlink swaps + validate(), performs stopped at every notification until one goes through. A case is non-trivial when a change with at least one leaf came back and "
                 "was performed; distinct by (world files, request).")
     n_worlds = ctx.scale(5, 36)
     density = ctx.scale(0.18, 0.6)
@@ -634,6 +846,45 @@ def run(ctx):
     I = Interner()
     n_req = 0
     crash_groups = {}
+    def handle_record(world, req, r, base, mk_replay, tag=""):
+        nontrivial = r.outcome == "changes" and r.performed and bool(L.leaves(r.spec))
+        ctx.case((sorted(world["files"].items()), sorted(req.items(), key=str), r.root, tag), nontrivial=nontrivial)
+        bad = judge(world, r)
+        if getattr(r, "restriction_overridden", False):
+            ctx.count("resources_restriction_overridden_by_rope")
+        if r.outcome == "changes" and r.performed:
+            ctx.traces += 1
+            ctx.count("performed")
+            ctx.count("performed_in:%s" % r.root)
+            ctx.count("perform:%s" % ("raised" if r.do_exc else "ok"))
+            if getattr(r, "stop", None) is not None:
+                ctx.count("perform_under_stopped_handle:%s" % ("refused" if r.do_exc else "went through"))
+            ctx.count("leaves:%d" % min(len(L.leaves(r.spec)), 6))
+            for l in L.leaves(r.spec):
+                ctx.count("leaf:%s" % l[0])
+            if representable(r):
+                terms.append(g_case(I, base, r))
+                owners.append((world, req, [c for c, _ in bad],
+                               structural_class(world, r, bad[0][0]) if bad else None, mk_replay))
+            else:
+                ctx.count("unrepresentable_tree")
+            if len(ctx.samples) < 3 and nontrivial:
+                ctx.sample({"request": req, "change": json.loads(json.dumps(r.spec, default=repr))[:3],
+                            "announced": r.announced,
+                            "audited_do": L.primitive_events(r.do_raw)[:6],
+                            "changed_by_do": L.snap_diff(r.s1, r.s2)})
+        seen = set()
+        for check, text in bad:
+            cls = structural_class(world, r, check)
+            if (check, cls) in seen:
+                continue
+            seen.add((check, cls))
+            ctx.count("oracle_failed:%s" % check)
+            if check == "P2-crash":
+                crash_groups[cls] = crash_groups.get(cls, 0) + 1
+            ctx.violation(mk_replay(r, check, text, cls),
+                          "C09 %s%s: %s [%s %s]" % (tag, check, text, req["kind"], {k: v for k, v in req.items() if k != "kind"}))
+
     for wi in range(n_worlds):
         world = L.gen_world(ctx.rng)
         reqs = gen_requests(ctx.rng, world, density)[:budget]
@@ -658,41 +909,7 @@ def run(ctx):
               if rs[0].exc is not None:
                   ctx.count("refusal:%s" % (rs[0].exc["cls"] if rs[0].exc["rope_error"] else "NOT-ROPE-ERROR"))
               for r in rs:
-                nontrivial = r.outcome == "changes" and r.performed and bool(L.leaves(r.spec))
-                ctx.case((sorted(world["files"].items()), sorted(req.items(), key=str), r.root), nontrivial=nontrivial)
-                bad = judge(world, r)
-                if getattr(r, "restriction_overridden", False):
-                    ctx.count("resources_restriction_overridden_by_rope")
-                if r.outcome == "changes" and r.performed:
-                    ctx.traces += 1
-                    ctx.count("performed")
-                    ctx.count("performed_in:%s" % r.root)
-                    ctx.count("perform:%s" % ("raised" if r.do_exc else "ok"))
-                    ctx.count("leaves:%d" % min(len(L.leaves(r.spec)), 6))
-                    for l in L.leaves(r.spec):
-                        ctx.count("leaf:%s" % l[0])
-                    if representable(r):
-                        terms.append(g_case(I, sess.base, r))
-                        owners.append((world, req, [c for c, _ in bad],
-                                       structural_class(world, r, bad[0][0]) if bad else None))
-                    else:
-                        ctx.count("unrepresentable_tree")
-                    if len(ctx.samples) < 3 and nontrivial:
-                        ctx.sample({"request": req, "change": json.loads(json.dumps(r.spec, default=repr))[:3],
-                                    "announced": r.announced,
-                                    "audited_do": L.primitive_events(r.do_raw)[:6],
-                                    "changed_by_do": L.snap_diff(r.s1, r.s2)})
-                seen = set()
-                for check, text in bad:
-                    cls = structural_class(world, r, check)
-                    if (check, cls) in seen:
-                        continue
-                    seen.add((check, cls))
-                    ctx.count("oracle_failed:%s" % check)
-                    if check == "P2-crash":
-                        crash_groups[cls] = crash_groups.get(cls, 0) + 1
-                    ctx.violation(replay_obj(world, r, check, text, cls),
-                                  "C09 %s: %s [%s %s]" % (check, text, req["kind"], {k: v for k, v in req.items() if k != "kind"}))
+                handle_record(world, req, r, sess.base, lambda r, check, text, cls: replay_obj(world, r, check, text, cls))
               sess.after(rs)
               if ctx.too_many(12):
                   break
@@ -700,6 +917,29 @@ def run(ctx):
             sess.close()
         if ctx.too_many(12):
             break
+    # ---- multi-step sessions on one live project
+    n_sessions = ctx.scale(12, 40)
+    n_steps = ctx.scale(40, 60)
+    n_session_steps = 0
+    for si in range(n_sessions):
+        if ctx.too_many(12):
+            break
+        world = L.gen_world(ctx.rng)
+        ctx.count("sessions")
+        for steps, cur, records in gen_session(ctx.rng, world, n_steps):
+            n_session_steps += 1
+            step = steps[-1]
+            ctx.count("session_step:%s" % (step["op"] + ("+stops" if step.get("stops") else "")))
+            if step["op"] == "request":
+                ctx.count("kind:%s" % step["req"]["kind"])
+            for r in records:
+                def mk(r, check, text, cls, steps=steps, world=world):
+                    return {"kind": "session", "world": world, "steps": steps, "check": check, "observed": text,
+                            "class": cls, "last_request": r.req}
+                handle_record(cur, r.req, r, r.base, mk, tag="session step %d: " % len(steps))
+            if ctx.too_many(12):
+                break
+    ctx.extra["session_steps"] = n_session_steps
     ctx.extra["requests_served"] = n_req
     ctx.extra["crash_groups_seen"] = crash_groups
 
@@ -707,7 +947,7 @@ def run(ctx):
     words = evaluate(ctx, terms)
     in_domain = 0
     known_sigs = set(f.get("signature") for f in ctx.findings if f.get("property") == PROPERTY)
-    for w, (world, req, checks, cls) in zip(words, owners):
+    for w, (world, req, checks, cls, mk_replay) in zip(words, owners):
         if w & 2048:
             ctx.count("model_artefact")
             continue
